@@ -345,6 +345,10 @@ class Parser:
             ast = _get_parser().parse(fullcsource)
         except pycparser.c_parser.ParseError as e:
             self.convert_pycparser_error(e, csource)
+        except (AssertionError, AttributeError, IndexError, KeyError,
+                TypeError, ValueError) as e:
+            # pycparser failing internally on an invalid input
+            raise CDefError("parse error\n%s: %s" % (e.__class__.__name__, e))
         finally:
             if lock is not None:
                 lock.release()
